@@ -44,6 +44,14 @@ CHECKS.update({
         design="3/C14"),
 })
 
+CHECKS.update({
+    "C13": dict(
+        technique="property-based testing: exhaustive kind x default-pool x route matrix plus Hypothesis-drawn JSON defaults, reference-conversion oracle",
+        text="Every cell of a fixed matrix (15 kinds x valid/lenient/invalid/non-finite pools x model/query/header/cookie routes x enum styles, ~470 generations) plus random JSON defaults: a valid default must become an equal typed Python default that is encoded/sent when the argument is omitted; an invalid one must be diagnosed and never emitted; documented lenient conversions may go either way but must be typed correctly.",
+        note="pool boundaries follow the project's own documented conversions; ambiguous union defaults are counted, not judged; array/object/null kinds are outside the quantifier",
+        design="3/C13"),
+})
+
 NOT_YET = {}
 
 def main():
